@@ -121,4 +121,17 @@ def specBlocks (is : List TIns) : List (Nat × List Nat × List Nat) :=
         | .other => ftl
     (l, members.map (·.off), succs)
 
+
+/-- `PythonBytecodeBlock.get_instructions(bcmap)`: walk from `begin` in steps of one code unit
+    (`_next_inst_offset`: +2) while below `end`, keep the offsets the map knows (inline-cache
+    entries and, under 3.11, gaps are not in the map). `offs` are the keys of `bcmap`. -/
+def getInstrs (offs : List Nat) : Nat → Nat → Nat → List Nat
+  | 0, _, _ => []
+  | f + 1, it, e =>
+    if it < e then
+      (if offs.contains it then [it] else []) ++ getInstrs offs f (it + 2) e
+    else []
+
+def getInstructions (offs : List Nat) (b e : Nat) : List Nat := getInstrs offs (e - b + 1) b e
+
 end Scfg.Model
